@@ -358,6 +358,25 @@ static bool do_op(mstate *m, op_t op, mismatch *mm, bool counting)
     size_t wcap = 0;
     mm->why[0] = 0; mm->sigctx[0] = 0;
     vf_progress++;
+    bool inplace_bad = false;
+    if (op == 'w' && P_C11 && e.rawnode >= 0) {
+        /* in-place extraction: a writer that lives INSIDE the parser's own input buffer, one byte below the container, receives the
+         * container (source and destination of the copy overlap). Done on the side: input bytes and parser image are restored. */
+        vf_snap img;
+        vf_snap_save(&img, &L);
+        const vf_node *x = &D->n[e.rawnode];
+        size_t span = (size_t) (x->end - x->start);
+        binson_writer W2;
+        memset(&W2, 0x77, sizeof W2);
+        binson_writer_init(&W2, L.buf + x->start - 1, span + 1);
+        L.p->cb = NULL;
+        bool r2 = binson_parser_to_writer(L.p, &W2);
+        inplace_bad = !(r2 && W2.buffer_used == span && W2.error_flags == BINSON_ERROR_NONE && !memcmp(L.buf + x->start - 1, D->bytes + x->start, span));
+        memcpy(L.buf, D->bytes, D->len);
+        vf_snap_load(&L, &img);
+        L.p->cb = count_cb; L.p->cb_context = NULL;
+        cb_count = 0; cb_maxused = used0;
+    }
     switch (op) {
     case 'n': r = binson_parser_next(L.p); break;
     case 'O': r = binson_parser_go_into_object(L.p); break;
@@ -420,6 +439,10 @@ static bool do_op(mstate *m, op_t op, mismatch *mm, bool counting)
         snprintf(mm->why, sizeof mm->why, "a second, independent parser used from the token callback during this call misbehaved (code %d): the two objects interfere", probe_failed);
         snprintf(mm->sigctx, sizeof mm->sigctx, "interference");
         probe_failed = 0;
+        ok = false;
+    } else if (inplace_bad) {
+        snprintf(mm->why, sizeof mm->why, "to_writer into a writer placed one byte below the container inside the parser's own buffer did not deliver the container's bytes");
+        snprintf(mm->sigctx, sizeof mm->sigctx, "inplace");
         ok = false;
     } else if (r != e.ret) {
         snprintf(mm->why, sizeof mm->why, "returned %s, reference cursor says %s", r ? "true" : "false", e.ret ? "true" : "false");
